@@ -293,6 +293,9 @@ package lang
 //@ ghost $numStr string
 //@ ghost $pretty string
 //@ ghost $outAfterArgs string
+//@ ghost $nr int
+//@ ghost $r0 string
+//@ ghost $r1 string
 //@ ghost $sbFinal string
 
 //@ spec func repeatS(p string, n int) string = smt("s_repeat", string, p, n)
@@ -352,6 +355,8 @@ package lang
 //@   after strconv.ParseInt: $numStr = arg0
 //@   after Value.PrettyString: $pretty = ret0
 //@   after (*strings.Builder).String: $sbFinal = ret0
+//@   ensures[C18] a-format-without-directives-is-written-verbatim: len(args) >= 1 && args[0].Tag == ValueStr && (forall k int :: 0 <= k && k < len(*args[0].Str) ==> (*args[0].Str)[k] != '%') && err == nil ==> $out == old($out) + *args[0].Str
+//@   loop 0 invariant[C18] literal-text-so-far-is-copied-verbatim: 0 <= i && i <= len(fmtStr) && ((forall k int :: 0 <= k && k < i ==> fmtStr[k] != '%') ==> built(sb) == fmtStr[0:i])
 //@   assert[C18] byte-verbatim: arg1 == fmtStr[i] @ (*strings.Builder).WriteByte
 //@   assert[C18] directive-known: fmtStr[i] == 's' || fmtStr[i] == 'f' || fmtStr[i] == 'v' @ (*strings.Builder).WriteString
 //@   assert[C18] directive-s: fmtStr[i] == 's' ==> 1 <= argIndex - 1 && argIndex - 1 < len(args) && args[argIndex-1].Tag == ValueStr && arg1 == specPad(widthSpec, padChar, specStr(*args[argIndex-1])) @ (*strings.Builder).WriteString
@@ -545,6 +550,12 @@ package lang
 //@   ensures evok: evOK(e)
 //@   after Value.PrettyString: $pretty = ret0
 //@   after Evaluator.evalExprList: $outAfterArgs = $out
+//@   init $nr = 0
+//@   after Value.PrettyString: $nr = $nr + 1
+//@   after Value.PrettyString: $r0 = ($nr == 1 ? ret0 : $r0)
+//@   after Value.PrettyString: $r1 = ($nr == 2 ? ret0 : $r1)
+//@   ensures[C17] one-argument-then-a-newline: istype(stmt, *StatementPrint) && len(as(stmt, *StatementPrint).Args) == 1 && result == nil ==> $out == $outAfterArgs + $r0 + "\n"
+//@   ensures[C17] two-arguments-one-space-apart-then-a-newline: istype(stmt, *StatementPrint) && len(as(stmt, *StatementPrint).Args) == 2 && result == nil ==> $out == $outAfterArgs + $r0 + " " + $r1 + "\n"
 //@   ensures[C17] bare-print-writes-the-current-value-and-a-newline: istype(stmt, *StatementPrint) && len(as(stmt, *StatementPrint).Args) == 0 && result == nil ==> $out == $outAfterArgs + $pretty + "\n"
 //@   ensures[C07,C08] bare-return-clears-the-return-slot: istype(stmt, *StatementReturn) && as(stmt, *StatementReturn).Expr == nil ==> (result == errReturn && e.returnVal == nil) || isRT(result)
 //@   ensures[C07,C08] return-signals: istype(stmt, *StatementReturn) && result == nil ==> false
@@ -559,6 +570,7 @@ package lang
 //@   assert[C07] loop-continues-only-after-a-completed-or-continued-iteration: (istype(stmt, *StatementWhile) || istype(stmt, *StatementFor)) ==> $lastOut == nil || $lastOut == errContinue @ Evaluator.evalExpr
 //@   loop 0 invariant protocol: evInv(e, old(e.stackTop)) && e.evalDepth == old(e.evalDepth) + 1
 //@   loop 1 invariant protocol: evInv(e, old(e.stackTop)) && e.evalDepth == old(e.evalDepth) + 1
+//@   loop 1 invariant[C17] the-first-two-renderings-so-far: (rangeindex == 0 - 1 ==> $nr == 0 && $out == $outAfterArgs) && (rangeindex == 0 ==> $nr == 1 && $out == $outAfterArgs + $r0) && (rangeindex == 1 ==> $nr == 2 && $out == $outAfterArgs + $r0 + " " + $r1)
 //@   loop 2 invariant protocol: evInv(e, old(e.stackTop)) && ($lastOut == nil || $lastOut == errContinue) && e.evalDepth == old(e.evalDepth) + 1
 //@   loop 3 invariant protocol: evInv(e, old(e.stackTop)) && ($lastOut == nil || $lastOut == errContinue) && e.evalDepth == old(e.evalDepth) + 1
 //@   loop 4 invariant protocol: evInv(e, old(e.stackTop)) && e.evalDepth == old(e.evalDepth) + 1
@@ -1421,6 +1433,10 @@ package lang
 //@ func getObjPrototype/pluck [C16]
 //@   implements Value.NativeFn
 //@   ensures[C16] new-object: err == nil ==> result0 != nil && fresh(result0) && result0.Tag == ValueObj && result0.Obj != nil && fresh(result0.Obj) && fresh(*result0.Obj)
+//@   init $stored = 0
+//@   after Value.SetMember: $stored = $stored + 1
+//@   ensures[C16] one-member-stored-per-requested-key: this != nil && this.Tag == ValueObj && err == nil ==> $stored == len(v)
+//@   loop 0 invariant[C16] one-store-per-key-so-far: $stored == rangeindex + 1
 //@   assert[C16] looks-up-own-members-only: arg0.Tag == ValueObj && arg0.Proto == nil && arg0.Obj == this.Obj && arg1 == *value @ Value.GetMember
 //@   assert[C16] stores-a-fresh-cell-under-the-requested-key: arg0 == &newObj && fresh(arg2) && arg1 == *value @ Value.SetMember
 //@   modifies nothing
@@ -1431,6 +1447,7 @@ package lang
 // getArrayPrototype/sort$1 below.  That the result is a stably sorted permutation is the assumed contract
 // of slices.SortStableFunc.
 //@ ghost $stableSort bool
+//@ ghost $stored int
 //@ func getArrayPrototype/sort [C09,C15]
 //@   implements Value.NativeFn
 //@   init $stableSort = false
